@@ -293,13 +293,31 @@ _path = st.one_of(
 _query = st.sampled_from([b"", b"a=1", b"a=1&a=2&b=", b"q=%C3%A9", b"q=\xe9", b"x", b"a=b=c&&", b"%zz", b"a+b=c+d", b"k=v;w=x"])
 
 
+_FORCED = {}
+
+
 def _body(draw, ctype):
+    _FORCED.clear()
     kind = draw(st.sampled_from(["none", "json", "urlencoded", "multipart", "raw", "badjson"]))
     if kind == "none":
         raw = b""
     elif kind == "json":
         value = draw(st.one_of(gen.json_values, st.sampled_from([{"name": "Zoë", "city": "Köln"}, ["é", "中文"], "ü"])))
         raw = json.dumps(value, ensure_ascii=draw(st.sampled_from([False, False, True]))).encode("utf-8")
+        if draw(st.integers(0, 2)) == 0:
+            # the declared charset and the actual encoding of the body, in every combination that
+            # matters: agreeing non-UTF-8, disagreeing, unknown, byte-order marks, undeclared UTF-16/32
+            text = json.dumps(draw(st.sampled_from([{"name": "Zoë"}, ["é", "ü"], "ñ", {"k": [1, "ß"]}, ["中文"]])), ensure_ascii=False)
+            declared, actual = draw(st.sampled_from([
+                ("latin-1", "latin-1"), ("iso-8859-1", "latin-1"), ("utf-16", "utf-16"), ("utf-16-le", "utf-16-le"), ("gbk", "gbk"), ("cp1252", "cp1252"),
+                ("nope", "utf-8"), ("latin-1", "utf-8"), ("utf-8", "latin-1"), (None, "utf-8-sig"), ("utf-8", "utf-8-sig"), (None, "utf-16"), (None, "utf-32"),
+                (None, "utf-16-le"), ("ascii", "utf-8"), ("utf-8-sig", "utf-8-sig"), ("utf-7", "utf-7"),
+            ]))
+            try:
+                raw = text.encode(actual)
+            except UnicodeEncodeError:
+                raw = json.dumps(["x"]).encode(actual)
+            _FORCED["ctype"] = "application/json" + (f"; charset={declared}" if declared else "")
     elif kind == "badjson":
         raw = draw(st.sampled_from([b"{", b"\xff", b"[1,", b"nul"]))
     elif kind == "urlencoded":
@@ -347,7 +365,10 @@ def requests(draw, methods=("GET", "POST", "PUT", "HEAD", "DELETE")):
         "urlencoded": ["application/x-www-form-urlencoded", "application/x-www-form-urlencoded; charset=utf-8", "application/x-www-form-urlencoded"],
         "multipart": ['multipart/form-data; boundary="XbX"', "multipart/form-data; boundary=XbX", "multipart/form-data; boundary=XbX; charset=utf-8"],
     }
-    if body_kind in matching and draw(st.integers(0, 3)) > 0:
+    forced = _FORCED.pop("ctype", None)
+    if forced is not None:
+        headers = [h for h in headers if h[0] != "Content-Type"] + [["Content-Type", forced]]
+    elif body_kind in matching and draw(st.integers(0, 3)) > 0:
         headers = [h for h in headers if h[0] != "Content-Type"] + [["Content-Type", draw(st.sampled_from(matching[body_kind]))]]
     scheme = draw(st.sampled_from(["http", "https"]))
     rq = gw.areq(
